@@ -416,7 +416,7 @@ PROPS["C19"] = dict(
                "refused for them; reallocating operations are refused for stack and static Strings and Tuples.",
     quick=[("asan", 16, 30), ("plain", 8, 30)],
     thorough=[("asan", 16, 1500), ("plain", 16, 4000), ("memcheck", 8, 3, {"budget": 900})],
-    floors={"quick": {"iterator_result_walks": 1000, "sized_map_checks": 2000, "sized_sequence_checks": 1000, "sized_maps_value_larger_than_key": 100, "sized_maps_key_larger_than_value": 100, "objects_observed": 5000, "refusals_checked": 2000, "neighbour_checks": 100,
+    floors={"quick": {"containers_obtained_from_empty_sources": 200, "iterator_result_walks": 1000, "sized_map_checks": 2000, "sized_sequence_checks": 1000, "sized_maps_value_larger_than_key": 100, "sized_maps_key_larger_than_value": 100, "objects_observed": 5000, "refusals_checked": 2000, "neighbour_checks": 100,
                       "heap_objects_released_once": 50, "empty_registry_thread_runs": 20}},
     rule="evaluation = one observation or one refused operation; the enumeration is run completely at sizes "
          "1,2,3,7,64 by shard 0 and at random sizes by the generated cases; distinct = container size; non-trivial = "
@@ -478,7 +478,7 @@ PROPS["C13"] = dict(
     timeout={"quick": 900, "thorough": 5400},
     floors={"quick": {"digests_compared_with_solo_run": 100, "mutex_sections": 10000,
                       "mutex_handovers_between_threads": 1000, "trylock_sections_that_had_to_wait": 10,
-                      "join_publish_threads": 100, "cloned_thread_trials": 20,
+                      "join_publish_threads": 100, "cloned_thread_trials": 20, "cold_first_lookup_rounds": 400,
                       "mutex_phases_started_with_cold_lookups": 20}},
     rule="case = one trial: N threads (2..16) each run a seeded workload alone and then together, then 50-200 "
          "Mutex sections each, then a join-publish round; distinct = hash including the observed lock acquisition "
